@@ -23,10 +23,14 @@ def make_case(rng, ts=None, style=None, eps=None, k=None):
             ts = gen.sim_ts(rng)
             if rng.random() < 0.3:
                 ts = gen.internal_samples(rng, ts, k=rng.randint(1, 2))
+    if rng.random() < 0.3:
+        ts = gen.extra_flags(rng, ts)   # flag bits beyond NODE_IS_SAMPLE must not matter
     t, style = gen.random_times(rng, ts, style)
     import tskit
     fixed = [bool(f & tskit.NODE_IS_SAMPLE) for f in ts.nodes_flags]
+    _TS[id(ts)] = ts
     return {
+        "ts_id": id(ts),
         "t": [float(x) for x in t],
         "fixed": fixed,
         "parent": [int(x) for x in ts.edges_parent],
@@ -37,9 +41,21 @@ def make_case(rng, ts=None, style=None, eps=None, k=None):
     }
 
 
+_TS = {}   # live tree sequences of this run's cases (replayed cases call the kernel directly)
+
+
 def run_impl(case):
-    """call the kernel exactly as util.constrain_ages does; 'assert' when it asserts"""
+    """the public util.constrain_ages(ts, ...) when the case's tree sequence is alive (it derives
+    the fixed mask and edge arrays from ts), else the kernel called exactly as that wrapper does;
+    'assert' when it asserts"""
     import tsdate.util as util
+    ts = _TS.get(case.get("ts_id"))
+    if ts is not None and ts.num_nodes == len(case["t"]):
+        try:
+            out = util.constrain_ages(ts, np.array(case["t"], dtype=np.float64), float(case["eps"]), int(case["k"]))
+            return [float(x) for x in out]
+        except AssertionError:
+            return "assert"
     try:
         out = util._constrain_ages(
             np.array(case["t"], dtype=np.float64), np.array(case["fixed"], dtype=bool),
